@@ -150,7 +150,7 @@ package cdata
 //@   requires vals != nil && 1 <= vals.rank && vals.rank <= 3 && forall(k, 0, vals.rank, vals.shape[k] >= 1)
 //@   requires len(nd.OffsetStep) == vals.rank && len(nd.Offset) == vals.rank && len(nd.Step) == vals.rank && len(loc) == vals.rank && (step == nil || len(step) >= vals.rank)
 //@   requires forall(k, 0, len(nd.OffsetStep), nd.OffsetStep[k] == nd.Offset[k]*nd.Step[k])
-//@   requires nd.Impl.id != loc.id && nd.Impl.id != nd.OffsetStep.id && nd.Impl.id != nd.Offset.id && nd.Impl.id != nd.Step.id && nd.Impl.id != nd.Dims.id && nd.Impl.id != nd.OriginalDims.id && nd.Impl.id != vals.g_shapeid && nd.Impl.id != step.id
+//@   requires nd.Impl.id != loc.id && nd.Impl.id != nd.OffsetStep.id && nd.Impl.id != nd.Offset.id && nd.Impl.id != nd.Step.id && nd.Impl.id != nd.Dims.id && nd.Impl.id != nd.OriginalDims.id && nd.Impl.id != vals.g_shapeid && nd.Impl.id != step.id && nd.Impl.id != vals.g_unrollid
 //@   requires forall(j, 0, iprod(vals.shape, vals.rank), 0 <= nd.Start + idot(loc, nd.OffsetStep, len(loc)) + sladdr(vals.shape, nd.OffsetStep, step, ite(step == nil, 1, 0), j, vals.rank, vals.rank) && nd.Start + idot(loc, nd.OffsetStep, len(loc)) + sladdr(vals.shape, nd.OffsetStep, step, ite(step == nil, 1, 0), j, vals.rank, vals.rank) < nd.Impl.buflen)
 //@   requires forall(j1, 0, iprod(vals.shape, vals.rank), forall(j2, 0, iprod(vals.shape, vals.rank), implies(j1 != j2, nd.Start + idot(loc, nd.OffsetStep, len(loc)) + sladdr(vals.shape, nd.OffsetStep, step, ite(step == nil, 1, 0), j1, vals.rank, vals.rank) != nd.Start + idot(loc, nd.OffsetStep, len(loc)) + sladdr(vals.shape, nd.OffsetStep, step, ite(step == nil, 1, 0), j2, vals.rank, vals.rank))))
 //@   assigns nd.Impl[*]
@@ -172,7 +172,7 @@ package cdata
 //@   requires other != nil && 1 <= other.rank && other.rank <= 3 && forall(k, 0, other.rank, other.shape[k] >= 1)
 //@   requires len(nd.Dims) == other.rank && len(nd.OffsetStep) == other.rank && len(nd.Offset) == other.rank && len(nd.Step) == other.rank
 //@   requires forall(k, 0, len(nd.OffsetStep), nd.OffsetStep[k] == nd.Offset[k]*nd.Step[k])
-//@   requires nd.Impl.id != nd.OffsetStep.id && nd.Impl.id != nd.Offset.id && nd.Impl.id != nd.Step.id && nd.Impl.id != nd.Dims.id && nd.Impl.id != nd.OriginalDims.id && nd.Impl.id != other.g_shapeid && nd.Impl.id != 0
+//@   requires nd.Impl.id != nd.OffsetStep.id && nd.Impl.id != nd.Offset.id && nd.Impl.id != nd.Step.id && nd.Impl.id != nd.Dims.id && nd.Impl.id != nd.OriginalDims.id && nd.Impl.id != other.g_shapeid && nd.Impl.id != 0 && nd.Impl.id != other.g_unrollid
 //@   requires forall(j, 0, iprod(other.shape, other.rank), 0 <= nd.Start + sladdr(other.shape, nd.OffsetStep, nilints, 1, j, other.rank, other.rank) && nd.Start + sladdr(other.shape, nd.OffsetStep, nilints, 1, j, other.rank, other.rank) < nd.Impl.buflen)
 //@   requires forall(j1, 0, iprod(other.shape, other.rank), forall(j2, 0, iprod(other.shape, other.rank), implies(j1 != j2, nd.Start + sladdr(other.shape, nd.OffsetStep, nilints, 1, j1, other.rank, other.rank) != nd.Start + sladdr(other.shape, nd.OffsetStep, nilints, 1, j2, other.rank, other.rank))))
 //@   assigns nd.Impl[*]
